@@ -2,6 +2,7 @@ package c12
 
 import (
 	"regexp"
+	"strings"
 	"sync"
 
 	"wzverif/internal/kit"
@@ -25,19 +26,33 @@ const (
 	kfMarAbsent = "KF-C12-pgmar-absent-attr"
 	kfNegCS     = "KF-C12-negative-charspace"
 	kfTwoSect   = "KF-C12-earlier-section"
+	kfNaN       = "KF-C12-nan-size"
 )
+
+// caseStarts: the opened documents of another producer the history works on.
+func caseStarts(c Case) []*Start {
+	var out []*Start
+	if c.Start != nil {
+		out = append(out, c.Start)
+	}
+	for _, d := range c.More {
+		if d.Start != nil {
+			out = append(out, d.Start)
+		}
+	}
+	return out
+}
 
 var findings = []kit.Finding[Case]{
 	{ID: kfMarAbsent, Clause: "C12.S",
 		Desc: "a w:pgMar of another producer that lacks w:top/right/bottom/left/header/footer reads back 0 for the missing attribute instead of the documented default (GetPageSettings parses the empty string as 0), and the next setter writes that 0 into the file",
 		Trigger: func(c Case, f kit.Failure) bool {
-			if c.Start == nil {
-				return false
-			}
 			a := failAttr(f)
-			for _, n := range c.Start.marAbsent() {
-				if n != "gutter" && marField[n] == a {
-					return true
+			for _, st := range caseStarts(c) {
+				for _, n := range st.marAbsent() {
+					if n != "gutter" && marField[n] == a {
+						return true
+					}
 				}
 			}
 			return false
@@ -45,11 +60,36 @@ var findings = []kit.Finding[Case]{
 	{ID: kfNegCS, Clause: "C12.S",
 		Desc: "a negative w:docGrid/@w:charSpace of an opened document (usual in CJK documents) is dropped by the next read-modify-write setter (SetPageSettings writes charSpace only when > 0): setting margins changes the character grid",
 		Trigger: func(c Case, f kit.Failure) bool {
-			return c.Start != nil && c.Start.negCharSpace() && failAttr(f) == "DocGridCharSpace"
+			for _, st := range caseStarts(c) {
+				if st.negCharSpace() && failAttr(f) == "DocGridCharSpace" {
+					return true
+				}
+			}
+			return false
 		}},
 	{ID: kfTwoSect, Clause: "C12.S",
-		Desc:    "a document with an earlier section (w:pPr/w:sectPr) ends up with two SectionProperties in Body.Elements: GetPageSettings and every setter use the first (the earlier section's), Save writes only the last (body-level): settings are read from the wrong section and every change is lost on save",
-		Trigger: func(c Case, f kit.Failure) bool { return c.Start != nil && c.Start.HasPara }},
+		Desc: "a document with an earlier section (w:pPr/w:sectPr) ends up with two SectionProperties in Body.Elements: GetPageSettings and every setter use the first (the earlier section's), Save writes only the last (body-level): settings are read from the wrong section and every change is lost on save",
+		Trigger: func(c Case, f kit.Failure) bool {
+			for _, st := range caseStarts(c) {
+				if st.HasPara {
+					return true
+				}
+			}
+			return false
+		}},
+	{ID: kfNaN, Clause: "C12.S1",
+		Desc: "SetCustomPageSize (and SetPageSettings with Size Custom) accepts a width or height that is not a number: every comparison of the range check is false for NaN, so the call returns nil and writes w:pgSz w:w=\"NaN\" into the main part instead of rejecting a size outside the documented 12.7-558.8 mm",
+		Trigger: func(c Case, f kit.Failure) bool {
+			if !strings.Contains(f.Detail, "[special=nan") {
+				return false
+			}
+			for _, op := range c.Ops {
+				if hasNaN(op) {
+					return true
+				}
+			}
+			return false
+		}},
 }
 
 var (
